@@ -149,6 +149,13 @@ def run(ctx):
         else:
             ctx.corr_fail(op, 'real output passes the multiplicity oracle but differs from the model', case)
 
+    # ---- operands that are sort views
+    util.view_operand_cases(etl, rng, ctx, [
+        ('duplicates', 1, lambda t: etl.duplicates(t, 'x')), ('unique', 1, lambda t: etl.unique(t, 'x')),
+        ('distinct', 1, lambda t: etl.distinct(t, 'x')), ('distinct(count)', 1, lambda t: etl.distinct(t, 'x', count='n')),
+        ('conflicts', 1, lambda t: etl.conflicts(t, 'x')), ('duplicates(None)', 1, lambda t: etl.duplicates(t)),
+        ('isunique', 1, lambda t: [[etl.isunique(t, 'x'), etl.isunique(t, 'xy')]]), ('duplicates(compound)', 1, lambda t: etl.duplicates(t, ('x', 'xy'))),
+    ], 320 if ctx.thorough() else 80)
 
 def replay(d):
     print('replay case:', d.get('case'))
